@@ -19,9 +19,12 @@ def mulLoop (c : List Rat) (n : Nat) (lcc : Rat) : List Rat → List Rat → Lis
   | ai :: rest, cur, result =>
     mulLoop c n lcc rest (shiftMod c n lcc cur) (List.zipWith (fun r x => r + ai * x) result cur)
 
-/-- `mul_with_mod(a, b, c)`; errors model the two `assert!`s -/
+/-- `mul_with_mod(a, b, c)`; the errors model the two `assert!`s (`assert`) and, for the zero
+modulus (`c.deg() = usize::MAX`, both asserts pass), the `capacity overflow` panic of
+`vec![…; n]` (`overflow`) -/
 def mulWithMod (a b : List Rat) (c : List Rat) : Except String (List Rat) :=
   if a.isEmpty || b.isEmpty then .ok []
+  else if c.isEmpty then .error "overflow"
   else
     let n := c.length - 1
     if ¬ (a.length - 1 < n) then .error "assert"
@@ -29,6 +32,12 @@ def mulWithMod (a b : List Rat) (c : List Rat) : Except String (List Rat) :=
     else
       let cur := b ++ List.replicate (n - b.length) 0
       .ok (fromRaw (mulLoop c n (lc c) a cur (List.replicate n 0)))
+
+/-- `Algebraic::with_expr`: `debug_assert!(expr.deg() < minimal_poly.deg())` with the `usize::MAX`
+sentinel for the degree of zero — so in the dev profile the zero expression is rejected for every
+non-zero `minimal_poly`, and everything passes for the zero `minimal_poly` except zero itself -/
+def withExpr (f : List Int) (a : List Rat) : Except String (List Rat) :=
+  if degU a < degU f then .ok a else .error "assert"
 
 /-- `Algebraic * Algebraic` (min_poly of the left operand is used) -/
 def mul (f : List Int) (a b : List Rat) : Except String (List Rat) := mulWithMod a b (intsToRats f)
@@ -51,7 +60,15 @@ def powLoop (f : List Int) : Nat → Nat → List Rat → List Rat → Except St
 def pow (f : List Int) (a : List Rat) (e : Nat) : Except String (List Rat) :=
   powLoop f (e.log2 + 2) e a [1]
 
-/-- `as_coefs`: pad the expression to deg f entries -/
+/-- `as_coefs`: pad the expression to deg f entries (total version: see `asCoefsE` for the panic) -/
 def asCoefs (f : List Int) (a : List Rat) : List Rat := a ++ List.replicate (f.length - 1 - a.length) 0
+
+/-- `as_coefs` with its panics: `deg - expr.len()` is a `usize` subtraction, so an expression with
+more than `deg f` coefficients is an `overflow` panic (dev profile); for the zero `min_poly`
+(`deg = usize::MAX`) the padding vector cannot be allocated (`capacity overflow`, also `overflow`) -/
+def asCoefsE (f : List Int) (a : List Rat) : Except String (List Rat) :=
+  if f.isEmpty then .error "overflow"
+  else if f.length - 1 < a.length then .error "overflow"
+  else .ok (asCoefs f a)
 
 end NTV.Alg
